@@ -6,15 +6,20 @@ import (
 )
 
 func Normalize(json any) any {
-	proc := ld.NewJsonLdProcessor()
-	options := ld.NewJsonLdOptions("")
-	context := make(types.ObjectMap)
-	flattened, err := proc.Flatten(json, context, options)
+	flattened, err := normalize(json)
 	if err != nil {
 		panic(err)
 	}
 
 	return flattened
+}
+
+// normalize flattens the document; a document that JSON-LD processing rejects is an error
+func normalize(json any) (any, error) {
+	proc := ld.NewJsonLdProcessor()
+	options := ld.NewJsonLdOptions("")
+	context := make(types.ObjectMap)
+	return proc.Flatten(json, context, options)
 }
 
 func Index(json any) any {
